@@ -160,6 +160,29 @@ hs('sized4_le6', 6, 'Set(4)')
 hs('default_le36', 36, tiers=('thorough',), timeout=7200)
 hs('sized16_le36', 36, 'Set(16)', tiers=('thorough',), timeout=7200)
 
+# ----------------------------------------------------------------------------------------------- C10: garbage collector
+def gcs(name, ts, final, qcap=2, **kw):
+    kw.setdefault('opts', {'loop:keep_reclaim': '3'})
+    S('gc_' + name, 'gc/gc.cpp', {'assert': 'C10'}, defs=['VF_QCAP=%d' % qcap] + ['VF_T%d=%s' % (i, t) for i, t in enumerate(ts)] + ['VF_FINAL=' + final], **kw)
+# stop() issued while a region opened before the retirement is still open
+gcs('stop_with_open_region', ['REGION_OPEN();SIGNAL(0);REGION_CLOSE()', 'AWAIT(0);RETIRE(0);STOP_MARK();JOIN();vf_check(invoked[0]==1, 1)', 'COLLECTOR()'],
+    'vf_check(invoked[0] <= 1, 2); if (invoked[0]) vf_check(open_at_invoke[0] == 0, 3)')
+gcs('retire_then_stop', ['RETIRE(0);RETIRE(1);STOP_MARK();JOIN();vf_check(invoked[0]==1 && invoked[1]==1, 1)', 'COLLECTOR()'], 'vf_check(invoked[0]==1 && invoked[1]==1, 2)')
+gcs('never_early', ['REGION_OPEN();SIGNAL(0);AWAIT(1);REGION_CLOSE()', 'AWAIT(0);RETIRE(0);SIGNAL(1);STOP_MARK()', 'COLLECTOR()'],
+    'vf_check(invoked[0] <= 1, 2); if (invoked[0]) vf_check(open_at_invoke[0] == 0, 3)')
+
+# ----------------------------------------------------------------------------------------------- C13: coroutine futex
+def fx(name, init, ts, final, **kw):
+    S('fx_' + name, 'coro/fx.cpp', {'assert': 'C13'}, std=20, defs=['VF_INIT=' + init] + ['VF_T%d=%s' % (i, t) for i, t in enumerate(ts)] + ['VF_FINAL=' + final],
+      extra=['babylon/coroutine/futex.cpp', 'babylon/basic_executor.cpp'], **kw)
+fx('wake_one_basic', 'make_waiter(0,0)', ['WAKE_ONE()'], 'vf_check(ret[0]==1 && resumed[0]==1 && on_exec==1, 1)')
+fx('mismatch_no_suspend', 'fx->value() = 5; make_waiter(0,0); make_waiter(1,5)', ['WAKE_ALL()'], 'vf_check(suspended[0]==0 && suspended[1]==1 && ret[0]==1 && resumed[0]==0 && resumed[1]==1, 4)')
+fx('wake_one_vs_cancel', 'make_waiter(0,0); make_waiter(1,0)', ['CANCEL(1)', 'WAKE_ONE()'],
+   'vf_check(resumed[1]==1 && resumed[0]<=1, 2); vf_check(ret[1]==1 && resumed[0]+resumed[1]==2 || (ret[0]==0), 3)')
+fx('wake_all_vs_cancel', 'make_waiter(0,0); make_waiter(1,0)', ['CANCEL(0)', 'WAKE_ALL()'], 'vf_check(resumed[0]==1 && resumed[1]==1, 2); vf_check(ret[0]+ret[1]==2, 2)')
+fx('wake_all_vs_new_waiter', 'make_waiter(0,0); make_waiter(1,0)', ['WAKE_ALL()', 'NEW_WAITER(2)'], 'vf_check(resumed[0]==1 && resumed[1]==1 && resumed[2]<=1, 5)')
+fx('two_wake_one', 'make_waiter(0,0); make_waiter(1,0)', ['WAKE_ONE()', 'WAKE_ONE()'], 'vf_check(resumed[0]==1 && resumed[1]==1 && ret[0]==1 && ret[1]==1, 2)')
+
 # ----------------------------------------------------------------------------------------------- manifest texts
 LEVEL_TEXT = {
  'C01': 'Real ConcurrentBoundedQueue<two-word payload, VS> IR; client programs of 2-4 threads mixing push/pop/try_/push_n/pop_n/callback variants on capacities 1-2; oracle = exactly-once multiset, per-thread FIFO, fully published payload, try_ success when sequenced after enough completed operations.',
